@@ -11,9 +11,6 @@ AssertsQuick == { <<S1(0, 0)>>, <<S1(0, 0), S1(0, 7)>>, <<SQ(0, 1, 2, 4)>>, <<S1
                   <<PA(0, 1, 4), S1(1, 0)>>, <<S1(1, 6), S1(0, 0)>>,
                   \* assertions whose last instances fall into the exempt rows (only the assertion constrains them)
                   <<PA(0, 3, 4), S1(1, 7)>>, <<SQ(0, 1, 2, 4), S1(1, 0)>> }
-\* trace length 16 (thorough tier)
-AssertsL16 == { <<S1(0, 0), S1(0, 15)>>, <<SQ(0, 1, 2, 8)>>, <<PA(0, 3, 8), S1(1, 15)>>, <<SQ(0, 5, 8, 2), S1(1, 0)>> }
-ShapesL16 == { <<"pcol", "sum">>, <<"per", "mul2">>, <<"mul2per2", "sum">> }
 AuxQuick == { <<>>, <<[width |-> 1, rands |-> 1, src |-> <<0>>]>> }
 AuxMore  == AuxQuick \cup { <<[width |-> 2, rands |-> 2, src |-> <<1, 0>>]>> }
 =============================================================================
